@@ -86,7 +86,7 @@ def _one_seeded(args):
     try:
         dst = os.path.join(tmp, "src", "serif")
         shutil.copytree(src_dir, dst, ignore=shutil.ignore_patterns("__pycache__"))
-        r = subprocess.run(["patch", "-p1", "-s", "--no-backup-if-mismatch", "-d", tmp, "-i", patch],
+        r = subprocess.run(["patch", "-p1", "-s", "-F0", "--no-backup-if-mismatch", "-d", tmp, "-i", patch],
                            capture_output=True, text=True)
         if r.returncode != 0:
             return (name, "skipped", [], [r.stdout.strip()[:200]])
